@@ -6,6 +6,9 @@ use crate::p2::shape::Triangle as Tri2;
 use std::panic::{catch_unwind, AssertUnwindSafe};
 
 use crate::p3::mass_properties::MassProperties as MP3;
+use crate::p3::mass_properties::details::{tetrahedron_unit_inertia_tensor_wrt_point, trimesh_signed_volume_and_center_of_mass};
+use crate::p3::shape::Tetrahedron as Tet3;
+type P3 = d3::Point<f64>;
 type P2 = d2::Point<f64>;
 type V3 = d3::Vector<f64>;
 
@@ -25,6 +28,10 @@ fn fm3(m: &d3::na::Matrix3<f64>) -> String {
 }
 /// observable pair: mass(), local_com (the tensor goes through `symmetric_eigen` and is printed by the `*_tensor` functions)
 fn fmc3(m: &MP3) -> String { format!("{} {}", ff(m.mass()), d3::fp(&m.local_com)) }
+
+/// `local_com inv_mass` (bit-exact part of a 3-D result that went through `with_inertia_matrix`)
+fn fci3(m: &MP3) -> String { format!("{} {}", d3::fp(&m.local_com), ff(m.inv_mass)) }
+fn pts3(a: &mut Args) -> Vec<P3> { let n = a.u(); (0..n).map(|_| d3::p(a)).collect() }
 
 fn fmp2(m: &MP2) -> String { format!("{} {} {}", d2::fp(&m.local_com), ff(m.inv_mass), ff(m.inv_principal_inertia_sqrt)) }
 fn hmp2(m: &MP2) -> String { format!("{} {} {}", d2::hp(&m.local_com), hx(m.inv_mass), hx(m.inv_principal_inertia_sqrt)) }
@@ -94,6 +101,26 @@ pub fn exec(func: &str, a: &mut Args) -> String {
         "mp3_add_tensor" => { let x = mp3(a); let y = mp3(a); fm3(&(x + y).reconstruct_inertia_matrix()) }
         "mp3_sub_tensor" => { let x = mp3(a); let y = mp3(a); fm3(&(x - y).reconstruct_inertia_matrix()) }
         "mp3_sum_tensor" => { let n = a.u(); let v: Vec<MP3> = (0..n).map(|_| mp3(a)).collect(); fm3(&v.into_iter().sum::<MP3>().reconstruct_inertia_matrix()) }
+        // ---------------- 3-D triangle meshes (mass_properties_trimesh3d.rs)
+        "tet_signed_volume" => { let (p, q, r, s) = (d3::p(a), d3::p(a), d3::p(a), d3::p(a)); ff(Tet3::new(p, q, r, s).signed_volume()) }
+        "tet_unit_inertia" => { let o = d3::p(a); let (p, q, r, s) = (d3::p(a), d3::p(a), d3::p(a), d3::p(a));
+            fm3(&tetrahedron_unit_inertia_tensor_wrt_point(&o, &p, &q, &r, &s)) }
+        "trimesh3_vol_com" => { let v = pts3(a); let i = idx(a); guarded(|| { let (vol, c) = trimesh_signed_volume_and_center_of_mass(&v, &i); format!("{} {}", ff(vol), d3::fp(&c)) }) }
+        "from_trimesh3" => { let d = a.f(); let v = pts3(a); let i = idx(a); guarded(|| fci3(&MP3::from_trimesh(d, &v, &i))) }
+        "from_trimesh3_tensor" => { let d = a.f(); let v = pts3(a); let i = idx(a); guarded(|| { let m = MP3::from_trimesh(d, &v, &i);
+            format!("{} {} {}", fm3(&m.reconstruct_inertia_matrix()), d3::fv(&m.principal_inertia()), fquat(&m.principal_inertia_local_frame)) }) }
+        "from_trimesh3_flip" => { let d = a.f(); let v = pts3(a); let i = idx(a); guarded(|| {
+            let fl: Vec<[u32; 3]> = i.iter().map(|t| [t[0], t[2], t[1]]).collect();
+            let (m1, m2) = (MP3::from_trimesh(d, &v, &i), MP3::from_trimesh(d, &v, &fl));
+            format!("{} {} {} {}", fmc3(&m1), fm3(&m1.reconstruct_inertia_matrix()), fmc3(&m2), fm3(&m2.reconstruct_inertia_matrix())) }) }
+        "trimesh3_shape" => { use crate::p3::shape::{Shape, TriMesh};
+            let d = a.f(); let v = pts3(a); let i = idx(a);
+            guarded(|| match TriMesh::new(v, i) { Ok(tm) => fci3(&tm.mass_properties(d)), Err(_) => "none".into() }) }
+        "convex3_shape" => { use crate::p3::shape::{ConvexPolyhedron, Shape};
+            let d = a.f(); let v = pts3(a); let i = idx(a);
+            guarded(|| match ConvexPolyhedron::from_convex_mesh(v, &i) {
+                Some(cp) => { let m = cp.mass_properties(d); format!("{} {} {} {}", fci3(&m), fm3(&m.reconstruct_inertia_matrix()), d3::fv(&m.principal_inertia()), fquat(&m.principal_inertia_local_frame)) }
+                None => "none".into() }) }
         _ => "nofn".into(),
     }
 }
@@ -251,6 +278,171 @@ fn gen_full_mp3(r: &mut Rng, lat: bool) -> MP3 {
     loop { let m = gen_mp3(r, lat); if m.inv_mass != 0.0 && m.inv_principal_inertia_sqrt.iter().all(|e| *e != 0.0) { return m; } }
 }
 
+
+// ------------------------------------------------------------------ 3-D closed meshes
+
+type Mesh3 = (Vec<P3>, Vec<[u32; 3]>);
+fn hpts3(v: &[P3]) -> String { if v.is_empty() { "0".into() } else { format!("{} {}", v.len(), v.iter().map(d3::hp).collect::<Vec<_>>().join(" ")) } }
+fn hmesh3(m: &Mesh3) -> String {
+    if m.1.is_empty() { return format!("{} 0", hpts3(&m.0)); }
+    format!("{} {} {}", hpts3(&m.0), m.1.len(), m.1.iter().map(|x| format!("{} {} {}", x[0], x[1], x[2])).collect::<Vec<_>>().join(" "))
+}
+/// a quad `a b c d` (counter-clockwise seen from outside) as two triangles, either diagonal
+fn quad(t: &mut Vec<[u32; 3]>, r: &mut Rng, a: u32, b: u32, c: u32, d: u32) {
+    if r.bool() { t.push([a, b, c]); t.push([a, c, d]); } else { t.push([a, b, d]); t.push([b, c, d]); }
+}
+/// box `[-h, h]`, 8 vertices (index bit 0/1/2 = +x/+y/+z), 12 outward triangles
+fn box_mesh(r: &mut Rng, h: V3) -> Mesh3 {
+    let v: Vec<P3> = (0..8).map(|i| P3::new(if i & 1 != 0 { h.x } else { -h.x }, if i & 2 != 0 { h.y } else { -h.y }, if i & 4 != 0 { h.z } else { -h.z })).collect();
+    let mut t = Vec::new();
+    for f in [[0, 2, 3, 1], [4, 5, 7, 6], [0, 1, 5, 4], [2, 6, 7, 3], [0, 4, 6, 2], [1, 3, 7, 5]] { quad(&mut t, r, f[0], f[1], f[2], f[3]); }
+    (v, t)
+}
+/// planar polygon in the `(x, z)` plane for prisms / bipyramids: lattice templates (rectangle, right triangle, the
+/// non-convex L, a hexagon with collinear vertices) or points on an ellipse
+fn ring(r: &mut Rng, lat: bool, thorough: bool) -> Vec<(f64, f64)> {
+    if lat {
+        let w = *r.pick(&[0.5, 1.0, 2.0, 3.0]); let h = *r.pick(&[0.5, 1.0, 2.0, 6.0]);
+        match r.below(5) {
+            0 => vec![(-w, -h), (w, -h), (w, h), (-w, h)],
+            1 => vec![(0.0, 0.0), (w, 0.0), (0.0, h)],
+            2 => vec![(0.0, 0.0), (2.0 * w, 0.0), (2.0 * w, h), (w, h), (w, 2.0 * h), (0.0, 2.0 * h)],
+            3 => vec![(0.0, 0.0), (w, 0.0), (2.0 * w, 0.0), (2.0 * w, h), (w, h), (0.0, h)],
+            _ => vec![(w, 0.0), (0.0, h), (-w, 0.0), (0.0, -h)],
+        }
+    } else {
+        let n = 3 + r.below(if thorough { 8 } else { 5 }) as usize;
+        let (rx, rz) = (r.logu(0.1, 10.0), r.logu(0.1, 10.0));
+        let mut angs: Vec<f64> = (0..n).map(|_| r.uniform(0.0, std::f64::consts::TAU)).collect();
+        angs.sort_by(|a, b| a.partial_cmp(b).unwrap());
+        angs.iter().map(|t| (rx * t.cos(), rz * t.sin())).collect()
+    }
+}
+/// prism over `ring` between `y = -h` and `y = h`: caps are fans from vertex 0 (a valid closed surface for any simple ring)
+fn prism_mesh(r: &mut Rng, ring: &[(f64, f64)], h: f64) -> Mesh3 {
+    let n = ring.len() as u32;
+    let mut v: Vec<P3> = ring.iter().map(|p| P3::new(p.0, -h, p.1)).collect();
+    v.extend(ring.iter().map(|p| P3::new(p.0, h, p.1)));
+    let mut t = Vec::new();
+    for i in 1..n - 1 { t.push([n, n + i, n + i + 1]); t.push([0, i + 1, i]); }
+    for i in 0..n { let j = (i + 1) % n; quad(&mut t, r, i, j, n + j, n + i); }
+    (v, t)
+}
+/// two apexes over a ring (apexes may be off-axis: possibly non-convex, still closed)
+fn bipyramid_mesh(ring: &[(f64, f64)], top: P3, bot: P3) -> Mesh3 {
+    let n = ring.len() as u32;
+    let mut v: Vec<P3> = ring.iter().map(|p| P3::new(p.0, 0.0, p.1)).collect();
+    v.push(top); v.push(bot);
+    let mut t = Vec::new();
+    for i in 0..n { let j = (i + 1) % n; t.push([n, i, j]); t.push([n + 1, j, i]); }
+    (v, t)
+}
+fn tetra_mesh(p: [P3; 4]) -> Mesh3 { (p.to_vec(), vec![[0, 1, 2], [0, 3, 1], [0, 2, 3], [1, 3, 2]]) }
+/// 1 -> 4 midpoint subdivision with shared midpoints (stays closed), or 1 -> 3 centroid split
+fn subdivide(r: &mut Rng, m: Mesh3) -> Mesh3 {
+    let (mut v, t) = m;
+    let mut out = Vec::new();
+    if r.bool() {
+        let mut mids: std::collections::HashMap<(u32, u32), u32> = std::collections::HashMap::new();
+        let mut mid = |v: &mut Vec<P3>, a: u32, b: u32| -> u32 {
+            let k = (a.min(b), a.max(b));
+            *mids.entry(k).or_insert_with(|| { let (p, q) = (v[k.0 as usize], v[k.1 as usize]); v.push(P3::from((p.coords + q.coords) * 0.5)); v.len() as u32 - 1 })
+        };
+        for [a, b, c] in t {
+            let (ab, bc, ca) = (mid(&mut v, a, b), mid(&mut v, b, c), mid(&mut v, c, a));
+            out.extend([[a, ab, ca], [ab, b, bc], [ca, bc, c], [ab, bc, ca]]);
+        }
+    } else {
+        for [a, b, c] in t {
+            let g = P3::from((v[a as usize].coords + v[b as usize].coords + v[c as usize].coords) / 3.0);
+            v.push(g); let k = v.len() as u32 - 1;
+            out.extend([[a, b, k], [b, c, k], [c, a, k]]);
+        }
+    }
+    (v, out)
+}
+fn append_mesh(a: &mut Mesh3, b: Mesh3) {
+    let off = a.0.len() as u32;
+    a.0.extend(b.0);
+    a.1.extend(b.1.into_iter().map(|t| [t[0] + off, t[1] + off, t[2] + off]));
+}
+fn flip_all(m: &mut Mesh3) { for t in m.1.iter_mut() { t.swap(1, 2); } }
+/// wind a single closed body outwards (positive signed volume)
+fn outward(mut m: Mesh3) -> Mesh3 {
+    let vol: f64 = m.1.iter().map(|t| { let (a, b, c) = (m.0[t[0] as usize].coords, m.0[t[1] as usize].coords, m.0[t[2] as usize].coords); a.dot(&b.cross(&c)) }).sum();
+    if vol < 0.0 { flip_all(&mut m); }
+    m
+}
+
+/// closed triangle meshes of either orientation.  Returns `(mesh, convex_and_outward)`.
+/// Families: boxes, tetrahedra, prisms (convex / L-shaped), bipyramids, parry's own `to_trimesh` of the five primitives,
+/// hollow boxes (outer shell outward + cavity inward), two disjoint bodies; optionally subdivided; then: whole mesh wound
+/// INWARDS with probability 1/2, a single triangle flipped (inconsistent soup) with probability 1/12, corner rotation,
+/// triangle order shuffled, rigid placement.
+fn gen_mesh3(r: &mut Rng, lat: bool, thorough: bool) -> (Mesh3, bool) {
+    use crate::p3::shape::{Ball, Capsule, Cone, Cuboid, Cylinder};
+    let ext = |r: &mut Rng| if lat { *r.pick(&[0.25, 0.5, 1.0, 1.5, 2.0, 3.0]) } else { r.logu(0.05, 20.0) };
+    let mut convex = true;
+    let mut m: Mesh3 = match r.below(9) {
+        0 => { let h = V3::new(ext(r), ext(r), ext(r)); box_mesh(r, h) }
+        1 => { let s = if lat { 1.0 } else { r.logu(0.05, 20.0) };
+               let mut p = [P3::origin(); 4];
+               for q in p.iter_mut() { *q = if lat { d3::gen_p(r, true, 1.0) } else { P3::new(r.uniform(-s, s), r.uniform(-s, s), r.uniform(-s, s)) }; }
+               if lat && r.below(3) == 0 { let a = ext(r); p = [P3::origin(), P3::new(a, 0.0, 0.0), P3::new(0.0, a, 0.0), P3::new(0.0, 0.0, a)]; }
+               convex = false; // orientation is arbitrary
+               tetra_mesh(p) }
+        2 => { let rg = ring(r, lat, thorough); convex = !(lat && rg.len() == 6 && rg[3].0 < rg[2].0 && rg[3].1 == rg[2].1 && rg[4].1 > rg[3].1 && rg[4].0 == rg[3].0 && rg[1].1 == 0.0 && rg[2].0 == rg[1].0 && rg[3].0 * 2.0 == rg[2].0);
+               let h = ext(r); outward(prism_mesh(r, &rg, h)) }
+        3 => { let rg = ring(r, lat, thorough); let (h1, h2) = (ext(r), ext(r));
+               let off = if r.bool() { V3::zeros() } else { convex = false; V3::new(r.coord(lat, 2.0), 0.0, r.coord(lat, 2.0)) };
+               if rg.len() == 6 { convex = false; }
+               let c = rg.iter().fold((0.0, 0.0), |s, p| (s.0 + p.0, s.1 + p.1)); let c = P3::new(c.0 / rg.len() as f64, 0.0, c.1 / rg.len() as f64);
+               outward(bipyramid_mesh(&rg, c + V3::new(0.0, h1, 0.0) + off, c - V3::new(0.0, h2, 0.0) - off)) }
+        4 => Cuboid::new(V3::new(ext(r), ext(r), ext(r))).to_trimesh(),
+        5 => { let n = 3 + r.below(if thorough { 8 } else { 4 }) as u32;
+               match r.below(4) {
+                   0 => Ball::new(ext(r)).to_trimesh(n, n),
+                   1 => Cylinder::new(ext(r), ext(r)).to_trimesh(n),
+                   2 => Cone::new(ext(r), ext(r)).to_trimesh(n),
+                   _ => Capsule::new_y(ext(r), ext(r)).to_trimesh(n.max(4), n.max(4)),
+               } }
+        6 => { // hollow box: cavity wound inwards
+               convex = false;
+               let h = V3::new(ext(r), ext(r), ext(r));
+               let mut o = box_mesh(r, h);
+               let k = *r.pick(&[0.25, 0.5, 0.75]);
+               let mut c = box_mesh(r, h * k); flip_all(&mut c);
+               let sh = if r.bool() { V3::zeros() } else { V3::new(h.x * (1.0 - k) * 0.5, 0.0, -h.z * (1.0 - k) * 0.25) };
+               for p in c.0.iter_mut() { *p += sh; }
+               append_mesh(&mut o, c); o }
+        7 => { // two disjoint bodies
+               convex = false;
+               let h = V3::new(ext(r), ext(r), ext(r));
+               let mut o = box_mesh(r, h);
+               let mut b = if r.bool() { let h2 = V3::new(ext(r), ext(r), ext(r)); box_mesh(r, h2) } else { let rg = ring(r, lat, thorough); let hh = ext(r); outward(prism_mesh(r, &rg, hh)) };
+               let sh = V3::new(h.x + 25.0, r.coord(lat, 4.0), r.coord(lat, 4.0));
+               for p in b.0.iter_mut() { *p += sh; }
+               append_mesh(&mut o, b); o }
+        _ => { // the reviewers' shape: cube / 1x2x3 box at the origin or shifted
+               let h = if r.bool() { V3::new(1.0, 2.0, 3.0) } else { let a = ext(r); V3::new(a, a, a) };
+               let mut b = box_mesh(r, h);
+               if r.bool() { let sh = V3::new(30.0, 20.0, 10.0); for p in b.0.iter_mut() { *p += sh; } }
+               b }
+    };
+    if m.1.len() <= (if thorough { 60 } else { 30 }) && r.below(4) == 0 { m = subdivide(r, m); }
+    // orientation
+    if r.bool() { flip_all(&mut m); convex = false; }
+    if r.below(12) == 0 && !m.1.is_empty() { let k = r.below(m.1.len() as u64) as usize; m.1[k].swap(1, 2); convex = false; }
+    for tr in m.1.iter_mut() { let k = r.below(3) as usize; tr.rotate_left(k); }
+    for i in (1..m.1.len()).rev() { let j = r.below(i as u64 + 1) as usize; m.1.swap(i, j); }
+    // rigid placement
+    if r.below(3) != 0 {
+        let iso = d3::gen_iso(r, lat, if lat { 4.0 } else { 50.0 });
+        for p in m.0.iter_mut() { *p = iso * *p; }
+    }
+    (m, convex)
+}
+
 pub fn gen(r: &mut Rng, thorough: bool) -> Vec<(String, String)> {
     let n = if thorough { 4000 } else { 400 };
     let mut v: Vec<(String, String)> = Vec::new();
@@ -345,6 +537,25 @@ pub fn gen(r: &mut Rng, thorough: bool) -> Vec<(String, String)> {
             let sum3 = format!("{} {}", k3, tm.iter().map(hmp3).collect::<Vec<_>>().join(" "));
             v.push(("mp3_sum".into(), sum3.clone()));
             v.push(("mp3_sum_tensor".into(), sum3));
+        }
+        // ---------------- 3-D triangle meshes: closed surfaces of either orientation
+        { let (mut m, convex) = gen_mesh3(r, lat, thorough);
+          let tp: Vec<P3> = (0..5).map(|_| if lat { d3::gen_p(r, true, 1.0) } else { d3::gen_p(r, false, 10.0) }).collect();
+          v.push(("tet_signed_volume".into(), tp[1..].iter().map(d3::hp).collect::<Vec<_>>().join(" ")));
+          let o = if r.below(3) == 0 { tp[1] } else { tp[0] };
+          v.push(("tet_unit_inertia".into(), format!("{} {}", d3::hp(&o), tp[1..].iter().map(d3::hp).collect::<Vec<_>>().join(" "))));
+          if convex && r.bool() { v.push(("convex3_shape".into(), format!("{} {}", hx(d), hmesh3(&m)))); }
+          match r.below(60) {
+              0 => { if !m.1.is_empty() { let k = r.below(m.1.len() as u64) as usize; m.1[k][r.below(3) as usize] = m.0.len() as u32 + r.below(3) as u32; } }
+              1 => { m = (Vec::new(), Vec::new()); }
+              2 => { m.1.clear(); }
+              3 => { for p in m.0.iter_mut() { p.y = 0.0; } }   // flat: zero volume
+              _ => {}
+          }
+          let hm = hmesh3(&m);
+          v.push(("trimesh3_vol_com".into(), hm.clone()));
+          for f in ["from_trimesh3", "from_trimesh3_tensor", "from_trimesh3_flip"] { v.push((f.into(), format!("{} {}", hx(d), hm))); }
+          if it % 4 < 2 { v.push(("trimesh3_shape".into(), format!("{} {}", hx(d), hm))); }
         }
         // covariance / tessellation identities on real outputs: transform of parts then sum
         if k > 0 {
